@@ -5,7 +5,8 @@ CFG = dict(
     checker="check_any",
     n=dict(quick=150, thorough=3000),
     shard=50,
-    rule="two scripted scenarios (every rule field referencing an IP set, reference changes under a connected workload, "
+    rule="16 splitter cases (splitIPSetUpdate / splitIPSetDeltaUpdate on run-length encoded member lists of 0 .. 3x MaxMembersPerMessage "
+         "members, compared with the chunking model and a completeness oracle), then two scripted scenarios (every rule field referencing an IP set, reference changes under a connected workload, "
          "join before the endpoint exists, re-join, endpoint removed while connected) followed by random "
          "histories of 12-35 operations (joins/leaves with fresh and stale join UIDs, re-joins over a live connection, "
          "endpoint/policy/profile/IP set/service account/namespace updates and removes, in-sync) over 3 workloads, "
@@ -20,7 +21,8 @@ CFG = dict(
                  "output channels never fill up (the driver's are buffered with 4096 slots; the server's have 100 and a reader goroutine)",
                  "calculation-graph contract Spec.valid (readable: Spec.listed_once = tiers disjoint, no repeat in an ingress list): policies/profiles are sent before endpoints that list them and removed only "
                  "when unused, IP sets likewise w.r.t. policies/profiles, an endpoint lists a policy once, join UIDs are non-zero",
-                 "IP set updates carry fewer than MaxMembersPerMessage (82200) members, so no message is split",
+                 "in the Processor model IP set updates carry fewer than MaxMembersPerMessage (82200) members (the splitters themselves are modelled, proved complete and compared with the code separately, Split.v)",
+                 "a single IPSetDeltaUpdate never adds and removes the same member (needed for c31_split_delta_complete_partial)",
                  "proto payloads are not mutated after being handed to the Processor"],
 )
 
